@@ -177,3 +177,18 @@ for _p in ("C09", "C10", "C11"):
     _ext(_p, "Since session 5 the formula translator finds its anchors through the data flow (harness/translate/flow.py: symbolic execution of the "
          "function body, helpers inlined, roles instead of variable names), so helper extraction / renamed locals are read as the pinned "
          "definitions while every seeded harmful change at an anchor is read as different or lost (tools/translator_selftest.py)")
+_ext("C04", "Since session 5 (after the mutation measurement): the dispatch on the Python TYPE of the key object (get_index_variant and the top of both "
+     "__setitem__s) and the two argument conventions of sptensor.extract are modelled; every documented spelling of a key is proved to reach that "
+     "key's operation model, an unrecognised key object is proved to be refused (never ignored) (20 theorems); histories carry spellings (Python "
+     "lists / NumPy scalars / index arrays / value vectors), objects that are no index, the empty dense starts")
+_ext("C13", "Since session 5: fg_setup.setup's data checks (binary / natural / non-negative, dense and sparse) and lower bounds are modelled and proved "
+     "as conditions on ALL entries (two defects found through them repaired in /repo), zeros(with_replacement=False) is proved in range / true zeros / "
+     "distinct (47 theorems); gcp_opt is driven with every objective on admissible and inadmissible data and with random / list / ktensor starts")
+_ext("C19", "Since session 5 (133 theorems): integer extents (zero / negative) for the sparse constructors, ttsv multiplicands, ttensor components, typed ktensor "
+     "components, subdims, sparse-tensor right-hand sides of index-list regions; plus a family without theorem that hands operands of an unsupported TYPE "
+     "to every public binary operation and demands an exception (three defects found by it repaired in /repo)")
+_ext("C11", "Since session 5: an implementation that raises on a request the model's argument checks accept is a violation (was: counted as a common "
+     "rejection); long runs over the full option space (precompinds, inexact, lbfgsMem, epsActive, mu0) on dense and shuffled-sparse storage; the L-BFGS "
+     "assertion known finding is accepted only where an independent replay of the slot bookkeeping agrees")
+_ext("C05", "Degenerate parameter cases (receivers without nonzeros, already symmetric data, empty mode selections, single-matrix Khatri-Rao, identity scalars / "
+     "matrices, algorithms that stop at once) are swept for every operation, with object-level identity and write-through observations (54 theorems, 90 entries)")
